@@ -251,6 +251,8 @@ def run_case(case):
     viol = M.Violations()
     S = W.stack('S', max_cmdt_packets=rng.choice([1, 2, 255]))
     P = W.stack('P', max_cmdt_packets=rng.choice([1, 3, 255]))
+    if rng.random() < 0.3:
+        S.ecu.add_timer(rng.choice([0.01, 0.4, 0.9, 2.0]), lambda c: True)                  # unrelated periodic application timer
     s1 = W.ca(S, S1, identity_number=1)
     s2 = W.ca(S, S2, identity_number=2)
     pc = W.ca(P, PA, identity_number=3)
